@@ -963,6 +963,20 @@ def _stage_keys() -> Iterator[MDoc]:
         yield d
 
 
+def _stage_constructor_keys() -> Iterator[MDoc]:
+    """fields keyed by a constructor name (PATTERN, REGEX, ENUM, TYPE ...): the emitter has key-specific quoting rules for
+    some of them, so every value kind must keep its type there too"""
+    vals = [MInt(42), MFloat(1.5), MBool(True), MNull(), MList([MInt(1), MInt(2)]), MList([]), S("bare"), S("x y"), S("^a+$"), S("")]
+    for k in ("PATTERN", "REGEX", "ENUM", "TYPE", "CONST"):
+        for v in vals:
+            for pos in ("top", "block", "section", "map", "meta"):
+                if not allowed_at(v, pos):
+                    continue
+                d = place(v, pos, key=k)
+                d.label = f"constructor key {k} = {type(v).__name__}@{pos}"
+                yield d
+
+
 def _stage_envelope() -> Iterator[MDoc]:
     metas = [[], [("TYPE", S("T")), ("VERSION", S("1.0"))], [("TYPE", S("T")), ("N", [("A", MInt(1)), ("B", S("x y"))]), ("TAGS", MList([S("a"), S("b"), S("c")]))]]
     bodies = [[], [MAssign("A", MInt(1))], [MBlock("B", None, [MAssign("C", S("c"))])], [MSection("1", "S", None, [])]]
@@ -1110,7 +1124,7 @@ def documents(max_depth: int = 2, max_siblings: int = 2, seed: int = 0, limit: i
     them when they fit in what is left of `limit`, else a seeded random sample. Deterministic per seed."""
     rng = random.Random(seed)
     n = 0
-    for stage in (_stage_values, _stage_keys, _stage_envelope, _stage_comments, _stage_dups, _stage_sections_blocks, _stage_zones, _stage_line_bookkeeping):
+    for stage in (_stage_values, _stage_keys, _stage_constructor_keys, _stage_envelope, _stage_comments, _stage_dups, _stage_sections_blocks, _stage_zones, _stage_line_bookkeeping):
         for d in stage():
             if n >= limit:
                 return
